@@ -19,6 +19,17 @@ CHECKS = {
         note="differential execution under a shared simulated history, not an interleaving search (the generated machine has no threads or timers); null datamodel, no invoke, "
              "fault-free plans; runs cut by the step cap are compared up to the cut; sanitizer build only (the unsanitized compile is not run).",
         technique=TECH + "shared simulated timed history replayed into the compiled transpiler output (sanitizers on), record-by-record trace equality against the interpreter"),
+    "C06": dict(
+        level="exploration",
+        text="For generated promela-datamodel charts (single machine; parallel, history, finals, internal/targetless/multi-target/eventless transitions; raise/send/assign/if/"
+             "log/cancel content; a scripted environment of delayed sends) ChartToPromela::transform runs in-process; the emitted model is executed by spin's seeded random "
+             "simulation (spin -T -n<seed>, not its verifier); the order in which the model dequeued external events is extracted from its trace, and the interpreter is run "
+             "on the same chart in the simulator with all delayed events held back and released in exactly that order. Compared record by record: events dequeued, states "
+             "exited and entered, <log> values, configurations, termination.",
+        ref="DESIGN.md 6/C06",
+        note="differential execution; executions in which the model blocks on its bounded queues (7 internal / 13 external events) or loops are outside the fragment and "
+             "skipped (about a third of the generated charts); transition identities are not compared; nested machines (invoke) are excluded as in the property.",
+        technique=TECH + "seeded random simulation of the emitted model (spin -n<seed>) against the interpreter under a hold-and-release delayed-event queue that replays the model's external event order"),
     "C20": dict(
         level="exploration",
         text="The environment is the schedule: the same generated document (nested invoked machines with explicit ids, many event names) at the same URL is transpiled by two "
@@ -141,7 +152,6 @@ NOT_APPLICABLE = [
 
 # properties that will be claimed once their check exists; until then they are listed as not (yet) claimed
 PENDING = {
-    "C06": "not claimed yet: spin-simulation differential under construction (DESIGN.md 6/C06)",
 }
 
 
